@@ -660,17 +660,51 @@ func checkC16(c *Case, trace bool) *CaseResult {
 		// get a witness class of their own, so that any other order dependence is still reported
 		wm := newWorld(h1, true, false)
 		wm.Run()
+		wt := newWorld(t, true, false)
+		wt.Run()
 		switch {
 		case wm.mon.decoratorMediatedCycle(wm.mon.role):
 			v.Class = "decorator-mediated-cycle"
 			res.Stats["diff.c16.decorator-mediated-cycle"]++
-		case failedInvokeBefore(a, at) || failedInvokeBefore(b, len(t.Ops)) || builtSetsDiffer(a, b, mapping):
+		case cutShortDiffers(a, b, mapping, wm.mon.swallowedOps, wt.mon.swallowedOps):
 			v.Class = "after-failed-invoke"
 			res.Stats["diff.c16.after-failed-invoke"]++
 		}
 		res.Viol = append(res.Viol, v)
 	}
 	return res
+}
+
+// cutShortDiffers (known finding F23): some Invoke that a dependency failure cut short - it failed in
+// one of the orders, or an optional edge swallowed a missing dependency in it - executed different sets of
+// functions in the two orders. Differences in Invokes without any dependency failure do not count: they
+// are never legitimate.
+func cutShortDiffers(a, b *World, mapping []int, swA, swB map[int]bool) bool {
+	for k, ra := range a.ops {
+		if ra == nil || a.h.Ops[k].Kind != OpInvoke || a.h.Ops[k].Invalid != "" || k >= len(mapping) || mapping[k] < 0 || mapping[k] >= len(b.ops) || b.ops[mapping[k]] == nil {
+			continue
+		}
+		rb := b.ops[mapping[k]]
+		if ra.Verdict == VOk && rb.Verdict == VOk && !swA[k] && !swB[mapping[k]] {
+			continue
+		}
+		sa, sb := map[int]bool{}, map[int]bool{}
+		for _, e := range ra.Execs {
+			sa[e.Fn] = true
+		}
+		for _, e := range rb.Execs {
+			sb[e.Fn] = true
+		}
+		if len(sa) != len(sb) {
+			return true
+		}
+		for f := range sa {
+			if !sb[f] {
+				return true
+			}
+		}
+	}
+	return false
 }
 
 // builtSetsDiffer: in some Invoke the two orders executed different sets of functions. That only
